@@ -5,6 +5,8 @@ pub mod c07;
 pub mod c08;
 pub mod c09;
 pub mod c12;
+#[cfg(feature = "pb")]
+pub mod c13;
 pub mod c14;
 pub mod c15;
 pub mod c17;
@@ -13,7 +15,7 @@ pub mod c18;
 use crate::engine::Property;
 
 pub fn all() -> Vec<Box<dyn Property>> {
-    vec![Box::new(c04::C04), Box::new(c05::C05), Box::new(c06::C06), Box::new(c07::C07), Box::new(c08::C08), Box::new(c09::C09), Box::new(c12::C12), Box::new(c14::C14), Box::new(c15::C15), Box::new(c17::C17), Box::new(c18::C18)]
+    vec![Box::new(c04::C04), Box::new(c05::C05), Box::new(c06::C06), Box::new(c07::C07), Box::new(c08::C08), Box::new(c09::C09), Box::new(c12::C12), #[cfg(feature = "pb")] Box::new(c13::C13), Box::new(c14::C14), Box::new(c15::C15), Box::new(c17::C17), Box::new(c18::C18)]
 }
 
 pub fn by_id(id: &str) -> Option<Box<dyn Property>> {
